@@ -498,8 +498,17 @@ partial def pairCallsL (xs ys : List Node) : List (Option String × Node × Node
   | _, _ => []
 end
 
+/-- looks through parentheses and TypeScript assertions (`(e)`, `e as T`, `e as const`, `e satisfies T`, `e!`): same value -/
+partial def unwrapTs (e : Node) : Node :=
+  match e with
+  | .mk .paren _ [x] => unwrapTs x
+  | .mk (.other t) _ (x :: _) =>
+    if ["TsAsExpression", "TsSatisfiesExpression", "TsNonNullExpression", "TsConstAssertion", "TsTypeAssertion"].contains t then unwrapTs x else e
+  | e => e
+
 /-- operations of an options object literal, spreads of object literals expanded -/
-partial def flattenOptions (e : Node) : List PropOp :=
+partial def flattenOptions (e0 : Node) : List PropOp :=
+  let e := unwrapTs e0
   match e with
   | .mk .object _ [.mk .list _ props] =>
     props.flatMap fun p =>
@@ -512,9 +521,9 @@ partial def flattenOptions (e : Node) : List PropOp :=
           | some s => [.set s p] | none => [.spreadPlain p])
       | .mk .getterProp _ (k :: _) => (match staticKeyOf k with | some s => [.set s p] | none => [.spreadPlain p])
       | .mk .spreadElement _ [x] =>
-        (match x with
-         | .mk .object _ _ => flattenOptions x
-         | x => [.spreadPlain x])
+        (match unwrapTs x with
+         | .mk .object oas oks => flattenOptions (.mk .object oas oks)
+         | ux => [.spreadPlain ux])
       | o => [.spreadPlain o]
   | e => [.spreadPlain e]
 
@@ -575,7 +584,8 @@ def c20Call (o : Opts) (vueBinds : List String) (decl : Option String) (ci co : 
   if ao.length < 2 || !(canon (nList (ai.take 1)) == canon (nList (ao.take 1))) || !(canon (nList (ai.drop 2)) == canon (nList (ao.drop 2))) then
     some ("arguments-changed", s!"arguments other than the options were changed: {showN co}") else
   let inOps : List PropOp := match (ai[1]? : Option Node) with | some (.mk .arg _ [e]) => flattenOptions e | _ => []
-  match (ao[1]? : Option Node) with
+  let outOpts : Option Node := (ao[1]? : Option Node).map (fun (a : Node) => match a with | .mk .arg aas [x] => Node.mk .arg aas [unwrapTs x] | a => a)
+  match outOpts with
   | some (.mk .arg _ [.mk .object oas oks]) =>
     match alignOptions (flattenOptions (.mk .object oas oks)) inOps [] with
     | .error msg => some ("options-changed", msg ++ ": " ++ showN co)
